@@ -46,6 +46,13 @@ UNIT_ORDER = ("nanometer micrometer millimeter centimeter meter kilometer inch f
               "byte kilobyte megabyte gigabyte terabyte petabyte exabyte kibibyte mebibyte gibibyte tebibyte petibyte exbibyte "
               "bit kilobit megabit gigabit terabit petabit exabit kibibit mebibit gibibit tebibit petibit exbibit").split()
 BIT_FAMILY = set(u for u in UNIT_ORDER if u.endswith("bit"))
+# the unit table as the known findings K1 / K2 describe the shipped one: every bit-family unit 64 times too large
+# (1/8 per byte shipped instead of 8), and what is spelled yard / yards / yd is the foot.  A deviation from the exact
+# definitions is attributed to a known finding only if it is exactly the deviation that finding describes.
+UNIT_SPEC_K = dict(UNIT_SPEC)
+for _u in BIT_FAMILY:
+    UNIT_SPEC_K[_u] = (UNIT_SPEC[_u][0], UNIT_SPEC[_u][1] * 64, UNIT_SPEC[_u][2])
+UNIT_SPEC_K["yard"] = UNIT_SPEC["foot"]
 
 
 def spec_spellings():
@@ -167,9 +174,13 @@ def oracle_units(ctx, name, a, b, cpath):
                 ok = close(v[2], exp, tol)
             if got_unit != tu or ok is False:
                 key = ""
-                if (su in BIT_FAMILY) != (tu in BIT_FAMILY):
+                # is this exactly what the known findings predict?
+                tu_k = "foot" if tu == "yard" else tu
+                exp_k = x * float(UNIT_SPEC_K[su][1] / UNIT_SPEC_K[tu][1]) if ks != "temperature" else None
+                as_known = exp_k is not None and got_unit == tu_k and close(v[2], exp_k, 1e-5 if (UNIT_SPEC[su][2] or UNIT_SPEC[tu][2]) else 1e-9) is not False
+                if as_known and (su in BIT_FAMILY) != (tu in BIT_FAMILY):
                     key = " [unit-factor:bit-family]"
-                elif su == "yard" or tu == "yard":
+                elif as_known and (su == "yard" or tu == "yard"):
                     key = " [spelling:yard]"
                 rep.violation("units%s: %r gave %s %s, the definitions give %.12g %s" % (key, text, v[2], got_unit, exp, tu),
                               case=line.strip(), impl=a[cid], stream=name, oracle="exact unit definitions, tolerance %s" % ("1e-5" if UNIT_SPEC[su][2] or UNIT_SPEC[tu][2] else "1e-9"))
@@ -450,6 +461,7 @@ def oracle_eval(ctx, name, a, b, cpath):
             env = {k: ("n", complex(v)) for k, v in INIT_CONSTS.items()}
             for nme in pyeval.BUILTIN_DOMAINS:
                 env[nme] = ("builtin", nme)
+            env_k = dict(env)           # the same session in the world the known findings K1 / K2 describe
             for k, th in enumerate(p[3:]):
                 text = unhx(th)
                 r = sc.scan(text, tab)
@@ -462,17 +474,29 @@ def oracle_eval(ctx, name, a, b, cpath):
                     ev = pyeval.Evaluator(UNIT_SPEC, env)
                     o = outs.get((k, j))
                     if st[0] == "clear":
-                        for nm in [n for n, v in env.items() if v[0] != "builtin" and n not in INIT_CONSTS]:
-                            del env[nm]
+                        for e_ in (env, env_k):
+                            for nm in [n for n, v in e_.items() if v[0] != "builtin" and n not in INIT_CONSTS]:
+                                del e_[nm]
                         continue
                     if st[0] in ("delvar",):
-                        if st[1] in env and env[st[1]][0] != "builtin" and st[1] not in INIT_CONSTS:
-                            del env[st[1]]
+                        for e_ in (env, env_k):
+                            if st[1] in e_ and e_[st[1]][0] != "builtin" and st[1] not in INIT_CONSTS:
+                                del e_[st[1]]
                         continue
                     if st[0] in ("define", "delsig"):
-                        if st[1] not in INIT_CONSTS and env.get(st[1], ("x",))[0] != "builtin":
-                            env[st[1]] = ("f",)
+                        for e_ in (env, env_k):
+                            if st[1] not in INIT_CONSTS and e_.get(st[1], ("x",))[0] != "builtin":
+                                e_[st[1]] = ("f",)
                         continue
+                    ev_k = pyeval.Evaluator(UNIT_SPEC_K, env_k)
+                    try:
+                        res_k = ("val", ev_k.ev(st[2] if st[0] == "assign" else st[1]))
+                    except pyeval.Refuse as e:
+                        res_k = ("err", e.kind)
+                    except (pyeval.Unjudged, ZeroDivisionError, OverflowError, ValueError):
+                        res_k = ("unjudged",)
+                    if st[0] == "assign" and not (st[1] in INIT_CONSTS or env_k.get(st[1], ("x",))[0] == "builtin"):
+                        env_k[st[1]] = res_k[1] if res_k[0] == "val" else ("f",)
                     try:
                         v = ev.ev(st[2] if st[0] == "assign" else st[1])
                         res = ("val", v)
@@ -516,9 +540,11 @@ def oracle_eval(ctx, name, a, b, cpath):
                             if "cross" in text or "×" in text:
                                 if "orientation" in why:
                                     key = " [column-cross-orientation]"
-                            if any(u in text.replace("yd", " yard ") for u in (" yard",)) or "yd" in text.split():
+                            # attributed to K1 / K2 only if the observed value is exactly what those findings predict
+                            as_known = res_k[0] != "unjudged" and judge_value(res_k, o, ev_k, text, spec=UNIT_SPEC_K) is None
+                            if as_known and (any(u in text.replace("yd", " yard ") for u in (" yard",)) or "yd" in text.split()):
                                 key = " [spelling:yard]"
-                            if re.search(r"\b[KMGTPE]?i?b\b", text) and "B" in text or re.search(r"\d ?[KMGTPE]?i?b\b", text):
+                            if as_known and (re.search(r"\b[KMGTPE]?i?b\b", text) and "B" in text or re.search(r"\d ?[KMGTPE]?i?b\b", text)):
                                 if "size" in why:
                                     key = " [unit-factor:bit-family]"
                             rep.violation("evaluator%s: %r evaluates wrongly" % (key, text.strip()), case=line.strip(), impl=[" ".join(o)], stream=name,
@@ -556,7 +582,8 @@ def stable(r1, r2):
     return True
 
 
-def judge_value(res, o, ev, text):
+def judge_value(res, o, ev, text, spec=None):
+    spec = spec or UNIT_SPEC
     if res[0] == "err":
         if o[2] != "err":
             return "the mathematics refuses this (%s); the implementation returned %s" % (res[1], " ".join(o[2:4])[:200])
@@ -580,7 +607,7 @@ def judge_value(res, o, ev, text):
         if got[0] != "q":
             return "expected a measurement, got %s" % o[3][:80]
         unit = UNIT_ORDER[got[1]]
-        kind, size, imp = UNIT_SPEC[unit]
+        kind, size, imp = spec[unit]
         if kind != v[1]:
             return "kind %s, expected %s" % (kind, v[1])
         if kind == "temperature":
